@@ -127,7 +127,9 @@ class World:
             omit = ent[2] if len(ent) > 2 else (idt is None)          # (slot, id, flag): a value that also carries the omit marker
             base = L.A_size * k
             if idt is None:
-                I.store_cell(arr, base + L.A_id, 32, SV(Poly.const(0)))      # the bindings zero the id of a hidden entry
+                # the id field of a hidden entry carries no meaning (the Go bindings zero it, a C caller may leave anything there, e.g. the value
+                # the slot had in another list): an arbitrary 256-bit integer that the code must ignore
+                I.store_cell(arr, base + L.A_id, 32, SV(Poly.const(self.G.ivar("%s_hidden_id%d" % (name, slot)))))
             else:
                 I.store_cell(arr, base + L.A_id, 32, SV(Poly.const(idt)))
             I.store_cell(arr, base + L.A_idx, 4, slot)
